@@ -2394,6 +2394,41 @@ fn minimal_successor_key(key: &[u8], timestamp: u64) -> (Vec<u8>, u64) {
     (key, timestamp)
 }
 
+//////////////////////////////////////// verification hook /////////////////////////////////////////
+
+/// Verification hook (only with `--cfg blue_verif`): decode `buf` as one of this crate's private
+/// wire messages and encode the decoded value again.  Returns the bytes and how much of `buf` was
+/// left over, or the error code; `None` for a type name this crate does not declare.
+#[cfg(blue_verif)]
+pub fn verif_repack(type_name: &str, buf: &[u8]) -> Option<Result<(Vec<u8>, usize), String>> {
+    match type_name {
+        "KeyValuePut" => Some(verif_repack_as::<KeyValuePut>(buf)),
+        "KeyValueDel" => Some(verif_repack_as::<KeyValueDel>(buf)),
+        "KeyValueEntry" => Some(verif_repack_as::<KeyValueEntry>(buf)),
+        "SstEntry" => Some(verif_repack_as::<SstEntry>(buf)),
+        "BlockMetadata" => Some(verif_repack_as::<BlockMetadata>(buf)),
+        "FinalBlock" => Some(verif_repack_as::<FinalBlock>(buf)),
+        "SstMetadata" => Some(verif_repack_as::<SstMetadata>(buf)),
+        "Header" => Some(log::verif_repack_header(buf)),
+        _ => None,
+    }
+}
+
+#[cfg(blue_verif)]
+pub(crate) fn verif_repack_as<'a, T>(buf: &'a [u8]) -> Result<(Vec<u8>, usize), String>
+where
+    T: buffertk::Unpackable<'a> + Packable,
+    <T as buffertk::Unpackable<'a>>::Error: Into<SError>,
+{
+    match T::unpack(buf) {
+        Ok((t, rest)) => Ok((stack_pack(&t).to_vec(), rest.len())),
+        Err(e) => {
+            let e: SError = e.into();
+            Err(prototk::error_code(&e).unwrap_or("no-code").to_string())
+        }
+    }
+}
+
 /////////////////////////////////////////////// tests //////////////////////////////////////////////
 
 #[cfg(test)]
